@@ -2066,6 +2066,8 @@ func (a *AvailabilityAssignment) Decode(d *Decoder) error {
 func (a *AvailabilityAssignments) Decode(d *Decoder) error {
 	cLog(Cyan, "Decoding AvailabilityAssignments")
 
+	// decoding replaces the receiver (entries are appended below)
+	*a = nil
 	for i := 0; i < CoresCount; i++ {
 		pointerFlag, err := d.ReadPointerFlag()
 		if err != nil {
@@ -2259,6 +2261,9 @@ func (a *AuthPool) Decode(d *Decoder) error {
 	if err != nil {
 		return err
 	}
+
+	// decoding replaces the receiver (entries are appended below)
+	*a = nil
 
 	if length == 0 {
 		return nil
@@ -2475,6 +2480,9 @@ func (d *DisputesRecords) Decode(decoder *Decoder) error {
 // AuthQueue
 func (a *AuthQueue) Decode(d *Decoder) error {
 	cLog(Cyan, "Decoding AuthQueue")
+
+	// decoding replaces the receiver (entries are appended below)
+	*a = nil
 
 	// make the slice with length
 	queue := make([]OpaqueHash, AuthQueueSize)
